@@ -88,6 +88,17 @@ reg(
     "DESIGN.md §3 C08",
 )
 
+reg(
+    "C19",
+    "fault_enumeration",
+    "Hypothesis-generated edit histories with the failure point of the last bulk edit enumerated completely (every cell / every yield index)",
+    "For generated pattern shapes, initial contents and histories of bulk edits, an exception is injected at every call index of the callable "
+    "and after every yield of the generator (complete for patterns up to 256 cells); contents must be unchanged after a failure, equal to the "
+    "supplied notes after success, and every note must reference its pattern (and resolve note.mod on attached patterns).",
+    "The supplied callable returns fresh notes; list identity after a failed edit is not claimed.",
+    "DESIGN.md §3 C19",
+)
+
 NOT_APPLICABLE = {}
 
 ALL = ["C%02d" % i for i in range(1, 21)]
